@@ -104,7 +104,7 @@ def rank_post(klass):
 
     def post(op, out):
         toks = op.split()
-        size = tuple(int(t) for t in toks[2:5])
+        size = tuple(int(t) for t in toks[2:-1])   # `lat <Class> <L...> rankfamily`: 2 or 3 sides
         try:
             code = klass(*size)
             locs = [] if out == '_' else [tuple(int(v) for v in c.split('.')) for c in out.split(';')]
